@@ -237,17 +237,9 @@ contract(
 
 # ---------------------------------------------------------------------------------------------------------------------
 # completeness: every named anchor numbered N that is not reset by a LATER bare '_N' of the same glyph is in marks[N-1].
-# Ghosts for the current glyph: lb[n] = position of the last bare '_n' seen so far (absent: none); mem[n] = the set of anchor objects in
-# componentAnchors[n]; for result[k]: lbs[k], mems[k] (the same at the end of that glyph's anchors).
+# Ghosts: for the current glyph mem[n] = the set of anchor objects in componentAnchors[n]; for result[k]: mems[k] (= mem at the end of that glyph's anchors).
 SET_NA2 = Set(NA)
-LB = Dict(INT, INT)
 MEM = Dict(INT, SET_NA2)
-
-
-def _kept(lb, x, b):
-    """named anchor x at position b is not reset by a later bare '_N' (lb: last bare position per number)"""
-    return f"({_named(x)} and not (({x}.number + 0) in {lb} and {lb}[{x}.number] > {b}))"
-
 
 _MEM_LIST = "all(n in componentAnchors and all(x in componentAnchors[n] for x in mem[n]) for n in mem)"
 _LM_MEM = "all(all(x in ligatureMarks[n - 1] for x in mem[n]) for n in mem)"
@@ -259,18 +251,15 @@ _NO_LATER_BARE = f"not any({_bare(_GK + '[c]')} and {_GK}[c].number == {_GK}[b].
 _COMPLETE = (f"all(result[k].name in {AL} and all(implies({_named(_GK + '[b]')} and {_NO_LATER_BARE},"
              f" {_GK}[b].number <= len(result[k].marks) and {_GK}[b] in result[k].marks[{_GK}[b].number - 1])"
              f" for b in range(len({_GK}))) for k in range(len(result)))")
-_CLOCALS = {**LOCALS, "r0": List(MARK2LIGA), "ca0": Dict(INT, List(NA)), "lb": LB, "mem": MEM, "lbs": Dict(INT, LB), "mems": Dict(INT, MEM), "src": Dict(INT, INT), "mem0": MEM, "mtmp": SET_NA2}
-_CGHOST_VARS = {**_R0, "mtmp": (SET_NA2, "set()"), "ca0": (Dict(INT, List(NA)), "{}"), "lb": (LB, "{}"), "mem": (MEM, "{}"), "lbs": (Dict(INT, LB), "{}"), "mems": (Dict(INT, MEM), "{}"),
-                "src": (Dict(INT, INT), "{}"), "mem0": (MEM, "{}")}
+_CLOCALS = {**LOCALS, "r0": List(MARK2LIGA), "ca0": Dict(INT, List(NA)), "mem": MEM, "mems": Dict(INT, MEM), "mem0": MEM, "mtmp": SET_NA2}
+_CGHOST_VARS = {**_R0, "mtmp": (SET_NA2, "set()"), "ca0": (Dict(INT, List(NA)), "{}"), "mem": (MEM, "{}"), "mems": (Dict(INT, MEM), "{}"), "mem0": (MEM, "{}")}
 _CGHOST = {**_R0_GHOST, "number = anchor.number": ["ca0 = {**componentAnchors}", "mem0 = {**mem}"],
-           "componentAnchors = {}": ["lb = {}", "mem = {}"],
-           SETBARE: ["lb = {**lb, number: j}", "mem = {**mem, number: set()}"],
+           "componentAnchors = {}": ["mem = {}"],
+           SETBARE: ["mem = {**mem, number: set()}"],
            SETAPP: ["mtmp = mem[number] if (number + 0) in mem else set()", "mtmp.add(anchor)", "mem = {**mem, number: mtmp}"],
-           # (per record k: dicts keyed by k, not lists — an update is an array store, no sequence reasoning for the earlier records)
-           APPEND: ["src = {**src, len(r0): i}", "lbs = {**lbs, len(r0): lb}", "mems = {**mems, len(r0): mem}"]}
+           # (per record k: a dict keyed by k, not a list — an update is an array store, no sequence reasoning for the earlier records)
+           APPEND: ["mems = {**mems, len(r0): mem}"]}
 _MEM_UPD = "all(implies(n != number, n in mem and mem[n] == mem0[n]) for n in mem0) and all(n in mem0 or n == number for n in mem)"
-_SRC_INV = f"all(0 <= src[k] and src[k] < i and result[k].name == {KEYS}[src[k]] for k in range(len(result)))"
-_AK = f"{AL}[{KEYS}[src[k]]]"
 
 # ---- #kept: an anchor that no later bare '_N' resets is a member of the ghost set mems[k][N] of its record -----------------------------------------------
 def _alive(A, b, hi):
@@ -287,29 +276,35 @@ contract(
         "kept-anchors-are-members": f"all(result[k].name in {AL} and all(implies({_alive(_GK, 'b', 'len(' + _GK + ')')},"
         f" ({_GK}[b].number + 0) in mems[k] and {_GK}[b] in mems[k][{_GK}[b].number]) for b in range(len({_GK}))) for k in range(len(result)))",
     },
-    # (the run-time side evaluates the ghost-free statement)
-    bounded_ensures={"kept-anchors-in-their-component": _COMPLETE},
     canaries={"never-empty": "len(result) > 0"},
     locals=_CLOCALS, ghost_vars=_CGHOST_VARS, ghost=_CGHOST,
     hints={
-        APPEND: _APPENDED + [
-            "mems[len(r0)] == mem and src[len(r0)] == i",
-            "all(implies(" + _alive("anchors", "b", "len(anchors)") + ", (anchors[b].number + 0) in mem and anchors[b] in mem[anchors[b].number]) for b in range(len(anchors)))",
-        ],
+        APPEND: _APPENDED + ["mems[len(r0)] == mem"],
         SETAPP: [_MEM_UPD, "(number + 0) in mem and anchor in mem[number]", "implies((number + 0) in mem0, all(x in mem[number] for x in mem0[number]))"],
         SETBARE: [_MEM_UPD],
     },
     loops={
         OUTER: Loop(index="i", invariants={
-            "src": _SRC_INV,
-            "kept": f"all(all(implies({_alive(_AK, 'b', 'len(' + _AK + ')')}, ({_AK}[b].number + 0) in mems[k] and {_AK}[b] in mems[k][{_AK}[b].number])"
-            f" for b in range(len({_AK}))) for k in range(len(result)))",
+            "names": f"all(result[k].name in {AL} for k in range(len(result)))",
+            "kept": f"all(all(implies({_alive(_GK, 'b', 'len(' + _GK + ')')}, ({_GK}[b].number + 0) in mems[k] and {_GK}[b] in mems[k][{_GK}[b].number])"
+            f" for b in range(len({_GK}))) for k in range(len(result)))",
         }),
         INNER: Loop(index="j", invariants={
             "kept": "all(implies(" + _alive("anchors", "b", "j") + ", (anchors[b].number + 0) in mem and anchors[b] in mem[anchors[b].number]) for b in range(j))",
         }),
         FILL: Loop(index="t", invariants={}),
     },
+)
+
+# the ghost-free statement on the real function at run time (a contract with ghost postconditions cannot carry the run-time harness: natively there are no ghosts)
+contract(
+    FN,
+    name="complete",
+    **COMMON,
+    globals={"max": MAX_KEYS},
+    bounded_ensures={"kept-anchors-in-their-component": _COMPLETE},
+    locals=LOCALS,
+    loops={OUTER: Loop(index="i", invariants={}), INNER: Loop(index="j", invariants={}), FILL: Loop(index="t", invariants={})},
     runtime=_RT,
 )
 
@@ -355,4 +350,19 @@ contract(
         }),
         FILL: Loop(index="t", invariants={"len": "len(ligatureMarks) == t", "filled": _FILLED}),
     },
+)
+
+# ---- composition of #kept and #listed (per record; x: an anchor, N: its component number) -------------------------------------------------------------
+from pyvc.api import lemma  # noqa: E402
+
+lemma(
+    "C06.lemma.liga-complete",
+    props=["C06"],
+    vars={"mem": MEM, "marks": List(List(NA)), "x": NA, "N": INT},
+    hyps=[
+        "(N + 0) in mem and x in mem[N]",  # #kept: an anchor that no later bare '_N' resets is a member of the record's ghost set for N
+        "all(n >= 1 and n <= len(marks) and all(y in marks[n - 1] for y in mem[n]) for n in mem)",  # #listed, for that record
+    ],
+    concl={"in-its-component": "N >= 1 and N <= len(marks) and x in marks[N - 1]"},
+    canaries={"first-component": "x in marks[0]"},
 )
